@@ -444,6 +444,27 @@ pub fn check(case: &Case, idx: u64, acc: &mut Acc) {
                             acc.violate(&format!("sequence/named/{}", if step == 1 || step == 4 { "pair" } else { "single-after-pair" }), idx, cj(), json!({"text": text, "built_after": format!("{},{}", a, b), "date": fmt_day(z), "want_holiday": want.contains(&z)}), json!(!want.contains(&z)));
                         }
                     }
+                    // long composite names (5 and 6 calendars, 19 .. 23 bytes) that differ from one resolved just before
+                    // in their FIRST calendar only
+                    for tail in [["tgt", "ldn", "nyc", "stk"], ["nyc", "stk", "osl", "zur"]] {
+                        if tail.iter().any(|t| *t == a || *t == b) {
+                            continue;
+                        }
+                        for text in [format!("{},{}", a, tail.join(",")), format!("{},{}", b, tail.join(",")), format!("{},{},{}", a, b, tail.join(",")), format!("{},{},{}", b, a, tail.join(","))] {
+                            acc.eval();
+                            let parts: Vec<&str> = text.split(',').collect();
+                            let want: BTreeSet<i64> = parts.iter().flat_map(|c| models[*c].keys().cloned()).filter(|z| weekday(*z) < 5).collect();
+                            let every: BTreeSet<i64> = FULL.iter().flat_map(|c| models[*c].keys().cloned()).filter(|z| weekday(*z) < 5).collect();
+                            match NamedCal::try_new(&text) {
+                                Err(_) => acc.violate("sequence/named/long-name-does-not-build", idx, cj(), json!({"text": text}), json!("Err")),
+                                Ok(nc) => {
+                                    if let Some(z) = every.iter().find(|z| nc.is_holiday(&to_ndt(**z)) != want.contains(*z)) {
+                                        acc.violate("sequence/named/long-name", idx, cj(), json!({"text": text, "date": fmt_day(*z), "want_holiday": want.contains(z)}), json!(!want.contains(z)));
+                                    }
+                                }
+                            }
+                        }
+                    }
                     // the same pair with the second calendar as settlement calendar, in lower, upper and mixed case
                     let (ua, ub) = (a.to_uppercase(), b.to_uppercase());
                     for text in [format!("{}|{}", a, b), format!("{}|{}", ua, ub), format!("{}|{}", a, ub), format!("{}|{}", ua, b), format!("{}|{}{}", a, &ub[..1], &b[1..])] {
@@ -679,7 +700,7 @@ pub fn run(ctx: &Ctx, replay_file: Option<String>) -> ! {
          one-offs) fires; weekends non-business; weekday non-holidays are business days. all/bus have no holidays. \
          fed == nyc minus Good Friday, date for date. tro tyo syd wlg mum: every weekday occurrence of each documented \
          fixed-date / Easter-linked holiday is a holiday (one-directional). Every name in the get_calendar docstring \
-         resolves. Supplementary and NOT exhaustive: before anything else 24 threads released together make the process's first name resolutions (every name must resolve, late holidays present). History independence: on one thread every name is resolved three times (in order, again, reversed) and named calendars 'a', 'a,b', 'a', 'b', 'b,a' are built for every ordered pair of the seven fully modelled calendars (and 'a|b' in lower, upper and mixed case); with failing and differently spelt look-ups in between from the second pass on; every object obtained must still answer as its rules say. For the nine (fixing csv, calendar) pairs the calendar's business days over [first, last \
+         resolves. Supplementary and NOT exhaustive: before anything else 24 threads released together make the process's first name resolutions (every name must resolve, late holidays present). History independence: on one thread every name is resolved three times (in order, again, reversed) and named calendars 'a', 'a,b', 'a', 'b', 'b,a' are built for every ordered pair of the seven fully modelled calendars (and 'a|b' in lower, upper and mixed case, and names of five and six calendars that differ in their first calendar only); with failing and differently spelt look-ups in between from the second pass on; every object obtained must still answer as its rules say. For the nine (fixing csv, calendar) pairs the calendar's business days over [first, last \
          publication] are exactly the publication dates. Non-trivial: weekday holidays / documented names / weekday \
          non-business days in a fixing period.",
         json!({"calendars": 14, "dates": 84371, "fixing_files": 9}),
